@@ -70,3 +70,11 @@ Theorem guard_satisfiable :
   front_end_names_ok ok_ns_scope = true /\ names_guard ok_ns_scope = true /\
   front_end_names_ok (EnumScope sample_enum) = true /\ names_guard (EnumScope sample_enum) = true.
 Proof. exact guard_satisfiable_lem. Qed.
+
+(* --- include guards ------------------------------------------------------------ *)
+
+(* "distinct module paths get distinct include guards" is FALSE of the faithful model:
+   x/y.emb and x_y.emb both get X_Y_EMB_H_ (likewise a-b.emb / a_b.emb / a.b.emb / a__b.emb, Common.emb / common.emb) *)
+Theorem header_guard_refuted :
+  exists p q, p <> q /\ header_guard p = header_guard q /\ header_guard p = "X_Y_EMB_H_"%string.
+Proof. exact header_guard_refuted_lem. Qed.
